@@ -22,7 +22,7 @@ RULE = (
     "parse yields exactly one sink per frame, sink j holds exactly the statements R attributes to frame j, the "
     "concatenation equals the flat parse, and frame_metadata.get() observed after each next() equals frame j's metadata. "
     "Additionally ALL 2^(rows-1) partitions into non-empty frames are enumerated for generated streams of 3..12 rows "
-    "(4 streams quick, 192 thorough). (c) sequences of 1..6 graphs / datasets (some empty) written through one shared stream with every grouped logical "
+    "(4 streams quick, 192 thorough). (d) an rdflib Dataset with several graphs through one stream_frames / serialize call of a TripleStream with a GRAPHS logical type: the frames that carry statements correspond one to one to the Dataset's non-empty graphs. (c) sequences of 1..6 graphs / datasets (some empty) written through one shared stream with every grouped logical "
     "type, both integrations: the frames that carry statements correspond 1:1, in order, to the non-empty inputs and each "
     "decodes (R, tables and repeated terms carried across frames) to exactly that input. "
     "non-trivial = re-framing with a cut between an entry row and its first use or between two statements where the second "
@@ -277,9 +277,54 @@ def body_grouped_write(case, acc):
     return None
 
 
+# --------------------------------------------------------------------------- (d)
+@st.composite
+def dataset_graphs_case(draw):
+    """An rdflib Dataset with several graphs through ONE stream_frames call of a TripleStream with a GRAPHS logical type
+    (one frame per graph is the documented behaviour of that combination)."""
+    stmts = draw(gen.statement_seq(arity=4, mode="rdflib", max_len=10, min_len=2, pool_max=3))
+    return {"kind": "dataset_graphs", "statements": stmts, "logical": draw(st.sampled_from([3, 13])), "phys": "TRIPLES",
+            "frame_size": draw(st.sampled_from([1, 3, 250])), "preset": draw(gen.preset_for(stmts)), "delimited": True,
+            "entry": draw(st.sampled_from(["stream_frames", "serialize"])),
+            "params": {"generalized": False, "rdf_star": False, "stream_name": ""}}
+
+
+def body_dataset_graphs(case, acc):
+    from pyjelly.integrations.rdflib import serialize as ser
+
+    ds = scen.rdflib_container(case["statements"], "QUADS")
+    stream = pyj.make_stream(case, "rdflib")
+    try:
+        if case["entry"] == "stream_frames":
+            data = pyj.frames_to_bytes(ser.stream_frames(stream, ds), True)
+        else:
+            data = ds.serialize(format="jelly", encoding="jelly", stream=stream, options=stream.options)
+    except Exception as exc:  # noqa: BLE001
+        return Violation(f"C07:dataset-graphs-raises:{type(exc).__name__}", f"{exc!r}", case)
+    want = []
+    for g in ds.graphs():
+        trip = sorted(repr(T.norm_stmt([T.from_rdflib(a), T.from_rdflib(b), T.from_rdflib(c)])) for a, b, c in g)
+        if trip:
+            want.append(trip)
+    if acc is not None:
+        single = any(len(t) == 1 for t in want)
+        acc.case(case, len(want) >= 3 and single, ["dataset_graphs_%d" % min(len(want), 5)] + (["has_single_triple_graph"] if single else []))
+    res = jellyref.decode(data, True, "strict")
+    if res.error is not None:
+        return Violation("C07:dataset-graphs-invalid", f"R rejects the output: {res.error}", case)
+    got = [sorted(repr(T.norm_stmt(e)) for e in fe if e[0] != "prefix") for fe in res.frame_events]
+    got = [f for f in got if f]
+    if sorted(got) != sorted(want):
+        return Violation("C07:dataset-graphs-frames", f"the Dataset has {len(want)} non-empty graphs with {sorted(map(len, want))} "
+                         f"triples; the frames that carry statements hold {sorted(map(len, got))}", case)
+    return None
+
+
 def body(case, acc):
     if case["kind"] == "reframe":
         return body_reframe(case, acc)
+    if case["kind"] == "dataset_graphs":
+        return body_dataset_graphs(case, acc)
     return body_grouped_write(case, acc)
 
 
@@ -330,7 +375,7 @@ def run_shard(spec) -> Acc:
     if spec["part"] == "partitions":
         return run_partitions(spec)
     acc = Acc()
-    strat = reframe_case() if spec["part"] == "reframe" else grouped_write_case()
+    strat = {"reframe": reframe_case, "grouped_write": grouped_write_case, "dataset_graphs": dataset_graphs_case}[spec["part"]]()
     hyp_search(strat, body, acc, seed=spec["seed"] * 1000 + spec["shard"], max_examples=spec["n"], known=set(spec["known"]))
     return acc
 
@@ -338,5 +383,6 @@ def run_shard(spec) -> Acc:
 def plan(tier, seed):
     n = 250 if tier == "quick" else 4000
     return ([{"part": "reframe", "shard": i, "n": n} for i in range(10)]
-            + [{"part": "grouped_write", "shard": 100 + i, "n": n} for i in range(6)]
+            + [{"part": "grouped_write", "shard": 100 + i, "n": n} for i in range(5)]
+            + [{"part": "dataset_graphs", "shard": 150 + i, "n": n} for i in range(2)]
             + [{"part": "partitions", "shard": 200 + i, "n": 1 if tier == "quick" else 12} for i in range(4 if tier == "quick" else 16)])
